@@ -181,6 +181,11 @@ def sround(x, ndigits=None, numpy_style=False):
     apps = c.uf_apps.setdefault(('round', ndigits), [])
     if not any(a.eq(xt) for a, _ in apps):
         c.lemma(z3.And(app - xt <= half, xt - app <= half))
+        # the rounded value is a multiple of 10**-n (makes "rounding dropped" models
+        # reproducible on real floats)
+        k = c.fresh('rndk', 'int')
+        scale = z3.RatVal(1, 10 ** ndigits) if ndigits >= 0 else z3.RealVal(10 ** (-ndigits))
+        c.lemma(app == z3.ToReal(k) * scale)
         for a, fa in apps:
             c.lemma(z3.And(z3.Implies(a <= xt, fa <= app), z3.Implies(xt <= a, app <= fa)))
         apps.append((xt, app))
